@@ -738,6 +738,9 @@ def check_C18(H):
     # rows vs the harness' iteration events: a row is written after a successful interpolation, so #rows <= #iterations,
     # and each row must agree with the iteration event it belongs to
     its = H.iters
+    expected_rows = sum(1 for t in its if t.interp_ok)
+    if all(t.interp_ok is not None for t in its) and nrows != expected_rows:
+        out.append(V('C18', 'row_count', site, '%d rows but %d iterations with a successful fit were observed' % (nrows, expected_rows)))
     if nrows > len(its):
         out.append(V('C18', 'more_rows_than_iterations', site, '%d rows, %d iterations observed' % (nrows, len(its))))
     else:
